@@ -325,6 +325,20 @@ fn exchangeability(ctx: &Ctx, m: usize, n: u64, base: u64, details: &mut Vec<Val
             worst_ks = worst_ks.max(ks);
         }
     }
+    // (f) the smallest race value of an (element, occurrence) pair - the race's starting point - has the same law for every
+    // occurrence: sign test and two-sample KS on the per-pair minima (a distortion of the first point only is diluted
+    // by 1/m in the per-position statistics above)
+    let mut worst_min_half: f64 = 0.;
+    let mut worst_min_ks: f64 = 0.;
+    for (o1, o2) in [(0usize, 1usize), (0, 2), (1, 2)] {
+        let mut a: Vec<f64> = (0..n as usize).map(|i| minv(&tb.t[o1][i])).collect();
+        let mut b: Vec<f64> = (0..n as usize).map(|i| minv(&tb.t[o2][i])).collect();
+        let less = a.iter().zip(b.iter()).filter(|(x, y)| x < y).count() as f64;
+        worst_min_half = worst_min_half.max(((less - n as f64 / 2.) / (n as f64 / 4.).sqrt()).abs());
+        worst_min_ks = worst_min_ks.max(two_sample_ks(&mut a, &mut b));
+    }
+    worst_half = worst_half.max(worst_min_half);
+    worst_ks = worst_ks.max(worst_min_ks);
     // (d) same law across elements: even vs odd elements, occurrence 1; and across positions
     let mut worst_ks_el: f64 = 0.;
     for k in 0..m {
@@ -403,7 +417,7 @@ pub fn run(ctx: &Ctx) -> i32 {
     }
     // ---- exchangeability of race tables on a block
     let mut tdetails = Vec::new();
-    let n_tab: u64 = ctx.pick(1 << 14, 1 << 17);
+    let n_tab: u64 = ctx.pick(1 << 19, 1 << 21);
     for &m in &[4usize, 16] {
         match exchangeability(ctx, m, n_tab, base, &mut tdetails) {
             Ok(n) => evals += n,
@@ -490,7 +504,7 @@ pub fn run(ctx: &Ctx) -> i32 {
     let coverage = json!({
         "evaluations": evals,
         "distinct_nontrivial": configs + 2 * n_tab,
-        "rule": "target: exact enumeration of ranking prefixes (cross-checked against all P! rankings for unions of <=8/9 pairs); tables: for every element of a block of 2^14 (2^17) the race tables of occurrences 1..3 are read from the real code (hook H4) and tested for bit-identical values across occurrences (must be 0), P(occ_i<occ_j)=1/2, equal laws across occurrences/elements/positions (two-sample KS) and zero rank correlation; end-to-end: 16 sequence pairs x l in {1,2,3,5,8,15} x m in {1,4,16,64}, T disjoint labellings each, mean fraction of equal positions within 6 standard errors of the target (exact for targets 0 and 1), confirmed on a 4x larger fresh block; distinct = configurations + block elements",
+        "rule": "target: exact enumeration of ranking prefixes (cross-checked against all P! rankings for unions of <=8/9 pairs); tables: for every element of a block of 2^19 (2^21) the race tables of occurrences 1..3 are read from the real code (hook H4) and tested for bit-identical values across occurrences (must be 0), P(occ_i<occ_j)=1/2, equal laws across occurrences/elements/positions (two-sample KS) and zero rank correlation; end-to-end: 16 sequence pairs x l in {1,2,3,5,8,15} x m in {1,4,16,64}, T disjoint labellings each, mean fraction of equal positions within 6 standard errors of the target (exact for targets 0 and 1), confirmed on a 4x larger fresh block; distinct = configurations + block elements",
         "samples": [
             {"pair": {"a": [0, 1, 0, 1], "b": [1, 0, 1, 0], "l": 2, "target": omh_similarity(&[0, 1, 0, 1], &[1, 0, 1, 0], 2).0}},
             {"pair": {"a": [0, 0, 1, 2], "b": [0, 1, 1, 2], "l": 3, "target": omh_similarity(&[0, 0, 1, 2], &[0, 1, 1, 2], 3).0}},
